@@ -101,7 +101,7 @@ def case_density(case):
             ref = of.rft(f, k, d, rmax, unit)
             dev = abs(dv - ref) / S0
             worst = max(worst, dev)
-            sev = "lt1e-2" if dev < 1e-2 else ("lt5e-2" if dev < 5e-2 else "ge5e-2")
+            sev = "lt1e-2" if dev < 1e-2 else ("lt5e-2" if dev < 5e-2 else ("lt1e-1" if dev < 1e-1 else "ge1e-1"))
             r.close("spectral_density(k) == d-dimensional Fourier transform of the correlation", dv, ref, rtol=1e-6 if analytic else 1e-3, atol=tolc, kl=kl, sev=sev, **extra)
         r.notes["max_dev_rel_S0"] = worst
         # Gaussian-window Parseval identity (non oscillatory): decides the pair relation for all dims
@@ -109,7 +109,7 @@ def case_density(case):
             lhs = of.window_lhs(f, a, d, rmax, unit)
             rhs = of.window_rhs(lambda k: m.spectral_density(k), a, d, unit)
             dev = abs(rhs - lhs) / abs(lhs)
-            sev = "lt1e-2" if dev < 1e-2 else ("lt5e-2" if dev < 5e-2 else "ge5e-2")
+            sev = "lt1e-2" if dev < 1e-2 else ("lt5e-2" if dev < 5e-2 else ("lt1e-1" if dev < 1e-1 else "ge1e-1"))
             r.close("Gaussian-window Parseval identity between correlation and density", rhs, lhs, rtol=1e-6 if analytic else 5e-3, atol=1e-9, a=a / unit, sev=sev, **extra)
     # normalisation of the radial pdf
     if analytic or True:
